@@ -45,7 +45,9 @@ AL2 = rs("t/al", [["wstring", "s"], ["net.IPAddress", "ip"], ["net.IPNetwork[]",
 G_GEN = dict(G_X, group="g/gen", members_as="generator")  # members handed over as a one-shot iterable
 N_E = rs("t/holdsempty", [["record", "sub"], ["record[]", "subs"]], [E, [E]])  # a field-less type that occurs only nested
 
-SHAPES = {"G_GEN": G_GEN, "N_E": N_E, "D_BASE": D_BASE, "D_EXT": D_EXT, "D_CLONE": D_CLONE, "D_STR": D_STR, "D_UNP": D_UNP, "D_MERGE": D_MERGE, "AL1": AL1, "AL2": AL2, "F_BAD2": F_BAD2, "F_OK2": F_OK2, "U1": U1, "U2": U2, "F_BAD": F_BAD, "F_OK": F_OK, "A": A, "A2": A2, "C": C, "BIG": BIG, "E": E, "N_A": N_A, "N_X": N_X, "G": G, "G_X": G_X, "G_ALT": G_ALT}
+G_NEST = {"group": "g/outer", "members": [{"group": "g/inner", "members": [A, C, X]}, E]}  # a grouped record built from a grouped record
+
+SHAPES = {"G_NEST": G_NEST, "G_GEN": G_GEN, "N_E": N_E, "D_BASE": D_BASE, "D_EXT": D_EXT, "D_CLONE": D_CLONE, "D_STR": D_STR, "D_UNP": D_UNP, "D_MERGE": D_MERGE, "AL1": AL1, "AL2": AL2, "F_BAD2": F_BAD2, "F_OK2": F_OK2, "U1": U1, "U2": U2, "F_BAD": F_BAD, "F_OK": F_OK, "A": A, "A2": A2, "C": C, "BIG": BIG, "E": E, "N_A": N_A, "N_X": N_X, "G": G, "G_X": G_X, "G_ALT": G_ALT}
 
 
 def small(spec):
